@@ -301,6 +301,12 @@ impl<'a> Parser<'a> {
                                 record_parts.push(part);
                                 State::Record(record_parts)
                             }
+                            // @ stays as is, it denotes the origin where a name is expected
+                            Token::At => {
+                                let mut record_parts = record_parts;
+                                record_parts.push("@".into());
+                                State::Record(record_parts)
+                            }
                             // TODO: we should not tokenize the list...
                             Token::List(list) => {
                                 let mut record_parts = record_parts;
